@@ -16,7 +16,6 @@ import (
 	"strconv"
 	"strings"
 	"testing"
-	"testing/synctest"
 
 	"pgregory.net/rapid"
 )
@@ -248,27 +247,6 @@ func vfCheck[P any](t *testing.T, prop vfProp[P]) {
 			rt.Fatalf("violation [%s]: %s", res.Sig, res.Violation)
 		}
 	})
-}
-
-// vfBubble runs fn in a fresh synctest bubble with a fresh world and tears the world down.
-// Panics inside fn are caught inside the bubble (so that teardown still happens) and re-raised outside.
-func vfBubble(t *testing.T, fn func(w *vfWorld)) {
-	var caught any
-	var stack []byte
-	synctest.Test(t, func(t *testing.T) {
-		w := newVFWorld(t)
-		defer w.close()
-		defer func() {
-			if r := recover(); r != nil {
-				caught = r
-				stack = debug.Stack()
-			}
-		}()
-		fn(w)
-	})
-	if caught != nil {
-		panic(fmt.Sprintf("%v\n%s", caught, stack))
-	}
 }
 
 func vfEnvInt(name string, def int) int {
